@@ -3,6 +3,8 @@
 package c08
 
 import (
+	"sync"
+
 	"cedarverif/internal/adwire"
 	"cedarverif/internal/core"
 	"cedarverif/internal/kit"
@@ -12,22 +14,76 @@ import (
 func init() { core.Register("C08", run) }
 
 func run(c *core.Ctx) {
-	c.Assume("the classad library's full parser (parser.ParseExpr) is the oracle for the value of a rendered text; the statement of C08 defines correctness that way")
-	if adwire.ReplayFileC08(c) {
+	c.Assume("the classad library's full parser (parser.ParseExpr) is the oracle for the value of a rendered text; the statement of C08 defines correctness that way; a text it rejects is outside the statement")
+	c.Assume("a lone '-' directly applied to a numeric literal is the same typed value as the negative literal (semantic comparison)")
+	c.Assume("the skipping receiver on a marker + secret item (keyed, non-encrypting stream, IncludePrivate) is outside the statement (DESIGN section 7 observation); measured and reported as an observation only")
+	if c.Replay != "" {
+		sc, kind, ok := adwire.ReadReplay(c)
+		if !ok {
+			return
+		}
+		switch kind {
+		case "LiteralShortcut":
+			adwire.ReplayLitCase(c, sc)
+		case "ClassAdWire":
+			adwire.ReplayAdFile(c, sc)
+		default:
+			c.Broken("replay file of unknown kind %q", kind)
+		}
 		return
 	}
-	mc, gen := "MC_C08_lit_quick.cfg", "Gen_C08_lit_quick.cfg"
+	mcLit, genLit := "MC_C08_lit_quick.cfg", "Gen_C08_lit_quick.cfg"
 	if c.Thorough() {
-		mc, gen = "MC_C08_lit.cfg", "Gen_C08_lit_thorough.cfg"
+		mcLit, genLit = "MC_C08_lit.cfg", "Gen_C08_lit_thorough.cfg"
 	}
-	if kit.ModelCheck(c, "LiteralShortcut.tla", mc, tlc.Options{Workers: 16}) == nil {
+	// the four TLC runs are independent of each other
+	var wg sync.WaitGroup
+	var litRows []adwire.LitRow
+	var wireRows []adwire.WireRow
+	okLit, okWire := false, false
+	wg.Add(4)
+	go func() {
+		defer wg.Done()
+		okLit = kit.ModelCheck(c, "LiteralShortcut.tla", mcLit, tlc.Options{Workers: 6}) != nil
+	}()
+	go func() {
+		defer wg.Done()
+		litRows = adwire.ParseLitRows(c, kit.Generate(c, "Gen_LiteralShortcut.tla", genLit, tlc.Options{}))
+	}()
+	go func() {
+		defer wg.Done()
+		okWire = kit.ModelCheck(c, "ClassAdWire.tla", "MC_C08_wire.cfg", tlc.Options{Workers: 6}) != nil
+	}()
+	go func() {
+		defer wg.Done()
+		wireRows = adwire.ParseWireRows(c, kit.Generate(c, "Gen_ClassAdWire.tla", "Gen_C08_wire.cfg", tlc.Options{}))
+	}()
+	wg.Wait()
+	if c.IsBroken() || !okLit || !okWire {
 		return
 	}
-	rows := adwire.ParseLitRows(c, kit.Generate(c, "Gen_LiteralShortcut.tla", gen, tlc.Options{}))
-	if c.IsBroken() {
-		return
-	}
-	st := adwire.ReplayLiterals(c, rows)
+
+	// (1) every text over the literal alphabet, with the predicted class / branch
+	st := adwire.ReplayLiterals(c, litRows)
 	adwire.RunLitCases(c, st, adwire.NumericExtremes())
 	st.Publish(c)
+	for i := 0; i < len(litRows) && i < 2; i++ {
+		c.Sample(litRows[len(litRows)/2+i])
+	}
+
+	// (2) ad shapes x value pool (grammar expressions, strings) x sender APIs x framings x receivers
+	pool, counts := adwire.ExprPool(c.Thorough(), c.Rand("c08-expr"))
+	c.Set("value_pool", counts)
+	scs := adwire.C08Scenarios(c, wireRows, pool)
+	scs = append(scs, adwire.LargeAdScenarios(c)...)
+	c.Set("ad_shape_rows", len(wireRows))
+	c.Set("ad_scenarios", len(scs))
+	if len(scs) > 2 {
+		c.Sample(scs[len(scs)/3])
+		c.Sample(scs[2*len(scs)/3])
+	}
+	t := adwire.RunScenarios(c, scs)
+	t.Publish(c, "wire_")
+	c.Set("exhaustive", true)
+	c.Set("rule", "cases = (a) every token sequence over the 15-token literal alphabet up to the tier's length, enumerated by TLC with its predicted grammar class and fast-path branch, each sent as `A = <text>` through PutClassAdRaw -> real stream -> GetClassAd in two concretisations (canonical on a plain stream, seeded on an encrypting stream) and compared with the full parser; (b) every ad shape of Gen_ClassAdWire (0..3 attributes public/private x option word x stream state x type names x cut plan) carrying the values of the grammar pool (all productions to depth 1, depth 2 over every depth-1 expression, all strings over a 15-character set to the tier's length, seeded deeper nesting), sent by every sender API, decoded from the sender's framing and from reference re-framings by GetClassAd / GetClassAdWithMaxSize / GetClassAdRaw / SkipClassAdRaw; distinct = distinct scenario; non-trivial = the parser assigns the text an expression (a) / the ad has an attribute (b)")
 }
